@@ -5,6 +5,7 @@ import concurrent.futures
 import json
 import os
 import shutil
+import subprocess
 import tempfile
 import time
 
@@ -82,7 +83,18 @@ def run_e2e(rec):
             f.write("\n".join(lines))
         code, out, err, wall, pid = scenario.run_scrut([path] + flags, root)
         scenario.kill_group(pid)
-        return "ok" if code == 0 else f"fail(exit {code})"
+        if code != 0:
+            return f"fail(exit {code})"
+        # the same layers must be in effect in `scrut update`: a document that passes `scrut test <flags>` is left as it is
+        before = open(path).read()
+        env = dict(os.environ, TMPDIR=os.path.join(root, "tmp-upd"), NO_COLOR="1")
+        env.pop("SCRUT_VERIF_TRACE", None)
+        os.makedirs(env["TMPDIR"], exist_ok=True)
+        u = subprocess.run([SCRUT_BIN, "update", "--no-color", "--replace", "--assume-yes", path] + flags, cwd=root, env=env,
+                           stdin=subprocess.DEVNULL, stdout=subprocess.PIPE, stderr=subprocess.PIPE, timeout=120)
+        if u.returncode != 0:
+            return f"fail(update exit {u.returncode})"
+        return "ok" if open(path).read() == before else "fail(update rewrote a document that passes test with the same flags)"
     finally:
         shutil.rmtree(root, ignore_errors=True)
 
